@@ -367,7 +367,7 @@ fn concurrent_lookup(kind: usize, lookup_end: usize, second: usize, out: &mut Pa
 /// 500 ms timeout, its request timeout has adapted (read from the snapshot); a put whose `n`
 /// storers all acknowledge 40 ms before *that* timeout expires - later than the round-trip estimate,
 /// earlier than expiry - must report Ok.
-fn adaptive_timeout(kind: usize, n: usize, warm: usize, slow_ms: u64, out: &mut Partial) {
+fn adaptive_timeout(kind: usize, n: usize, warm: usize, slow_ms: u64, full_table: bool, out: &mut Partial) {
     let silent = 0usize;
     let mut w = World::new(Chooser::default_run());
     let (req, target) = request(kind);
@@ -448,6 +448,9 @@ fn adaptive_timeout(kind: usize, n: usize, warm: usize, slow_ms: u64, out: &mut 
     }
     ack_latency = timeout.saturating_sub(40 * MS);
     let extra: Vec<Node> = (1..n).map(|i| node_with_token(ids[i].into(), eps[i], &net.eps[i].token)).collect();
+    // (guarded hook: the in-flight table is kept exactly full, the state in which the socket
+    // reclaims timed-out entries - and must reclaim nothing that has not timed out)
+    w.set_shrink_inflight(a, full_table);
     let put = w.call_put_raw(a, req, if extra.is_empty() { None } else { Some(extra.into_boxed_slice()) });
     let h = w.now + 60 * SEC;
     let debug = std::env::var_os("VERIF_DEBUG").is_some();
@@ -479,11 +482,11 @@ fn adaptive_timeout(kind: usize, n: usize, warm: usize, slow_ms: u64, out: &mut 
     if timeout > 600 * MS {
         out.add("adaptive_timeout_scenarios_with_adapted_timeout", 1);
     }
-    let replay = json!({"part": "adaptive-timeout", "kind": kind, "n": n, "warm": warm, "slow_ms": slow_ms});
+    let replay = json!({"part": "adaptive-timeout", "kind": kind, "n": n, "warm": warm, "slow_ms": slow_ms, "full_table": full_table});
     match w.result(put) {
         Some(CallResult::Put(Ok(_))) => out.add("ok_results", 1),
         Some(CallResult::Put(Err(e))) if acks_sent > 0 => out.violation(
-            format!("adaptive-timeout/error-despite-acks/{}", KINDS[kind]),
+            format!("adaptive-timeout/error-despite-acks/{}{}", KINDS[kind], if full_table { "/in-flight-table-full" } else { "" }),
             format!("{} put to {n} storers after replies of {slow_ms} ms: request timeout {} ms (round-trip estimate {} ms); all {acks_sent} storers acknowledged after {} ms, before expiry, but the put reports {e:?}", KINDS[kind], timeout / MS, rtt / MS, ack_latency / MS),
             replay.clone(),
         ),
@@ -857,10 +860,10 @@ fn run(tier: Tier, shard: usize, nshards: usize, _seed: u64) -> Partial {
         // (many counts: the socket reclaims timed-out entries only when its in-flight table is
         // exactly full; whether that is met is reported as a counter, not demanded)
         for n in 1usize..=24 {
-            for (warm, slow_ms) in [(0usize, 600u64), (0, 800), (5, 800)] {
+            for (warm, slow_ms, full_table) in [(0usize, 600u64, false), (0, 800, false), (5, 800, false), (0, 600, true), (0, 800, true)] {
                 idx += 1;
                 if idx % nshards == shard {
-                    adaptive_timeout(kind, n, warm, slow_ms, &mut out);
+                    adaptive_timeout(kind, n, warm, slow_ms, full_table, &mut out);
                 }
             }
         }
@@ -902,7 +905,7 @@ fn replay(v: &Value) -> Result<Option<Violation>, String> {
         overlap(v.get("pair").and_then(|x| x.as_u64()).ok_or("pair")? as usize, Some(v.get("at_event").and_then(|x| x.as_u64()).ok_or("at_event")? as u32), &mut out);
     } else if v.get("part").and_then(|p| p.as_str()) == Some("adaptive-timeout") {
         let g = |k: &str| v.get(k).and_then(|x| x.as_u64());
-        adaptive_timeout(g("kind").ok_or("kind")? as usize, g("n").ok_or("n")? as usize, g("warm").unwrap_or(0) as usize, g("slow_ms").ok_or("slow_ms")?, &mut out);
+        adaptive_timeout(g("kind").ok_or("kind")? as usize, g("n").ok_or("n")? as usize, g("warm").unwrap_or(0) as usize, g("slow_ms").ok_or("slow_ms")?, v.get("full_table").and_then(|x| x.as_bool()).unwrap_or(false), &mut out);
     } else if v.get("part").and_then(|p| p.as_str()) == Some("concurrent-lookup") {
         let g = |k: &str| v.get(k).and_then(|x| x.as_u64()).map(|x| x as usize);
         concurrent_lookup(g("kind").ok_or("kind")?, g("lookup_end").ok_or("lookup_end")?, g("second").ok_or("second")?, &mut out);
